@@ -141,6 +141,42 @@ UNITS += [http_write]
 from units.C09 import read_body_loop as _rbl, read_body_outer as _rbo, read_headers as _rh
 UNITS += [_rbl, _rbo, _rh]
 
+# ---- HttpMessage::writeFile(path, begin, end): the byte range [begin, end] of a file goes out exactly - never a byte beyond the announced length
+# (on a kept-alive connection surplus bytes would be taken for the start of the next response)
+write_file = Unit(
+    'HttpMessage_writeFile', 'C10',
+    cuts=[Cut('wf', HC, r'^void HttpMessage::writeFile\(const String& path, int begin, int end\)\s*$',
+              rules=[(r'File file\(path, File::READ\);\s*if \(!file\)\s*return;', '', 1), (r'if \(!_headersSent\)\s*sendHeaders\(\);', '', 1), (r'file\.seek\(begin\);', 'g_pos = begin;', 1),
+                     (r'file\.size\(\)', 'g_filesize', 1), (r'file\.read\(buf, ([^;]+)\);', r'FILE_READ(\1);', 1), (r'(?<![\w.>])write\(buf, n\)', 'MSG_WRITE(n)', 1), (r'\bLong size\b', 'long long size', 1)],
+              loops=[(r'while\s*\(n > 0', 0, '''
+  __CPROVER_assigns(n, bytesSent, g_pos, g_written, g_fail)
+  __CPROVER_loop_invariant(0 <= bytesSent && bytesSent <= size && g_written == bytesSent && (long long)g_pos == (long long)begin + bytesSent && g_pos <= g_filesize && (g_fail == 0 || g_fail == 1) && n >= 0 && (n == 0 ==> g_pos == g_filesize))
+  __CPROVER_decreases((n > 0 ? 1 : 0) + 2 * (size - bytesSent))
+''')])],
+    text=PRE + r'''
+#define RECV_BLOCK_SIZE 16000
+int g_pos, g_written, g_fail; long long g_filesize;
+/* File::read(p, k): k >= 1 inside the buffer; returns 1..min(k, bytes left in the file), 0 at the end of the file */
+static int FILE_READ(int k) { __CPROVER_assert(1 <= k && k <= RECV_BLOCK_SIZE, "file.read length positive and within the buffer"); long long left = g_filesize - g_pos; int r = nondet_int(); __CPROVER_assume(0 <= r && r <= k && r <= left && (left > 0 ==> r >= 1)); g_pos += r; return r; }
+/* HttpMessage::write(buf, n) (unit HttpMessage_write_blocks): n bytes of body go out, or a negative result */
+static int MSG_WRITE(int n) { __CPROVER_assert(n >= 1, "write of a non-empty block"); if (nondet_bool()) { g_fail = 1; return -1; } g_written += n; return n; }
+void writeFile(int begin, int end)
+__CPROVER_requires(0 <= begin && begin <= end && end < g_filesize && g_filesize <= 2000000000 && g_written == 0 && g_fail == 0)
+/* exactly the bytes begin..end are sent (end - begin + 1 of them; begin == end means the whole file from begin), in order, unless a write fails; never more than that */
+__CPROVER_ensures(g_written <= (begin != end ? end - begin + 1 : g_filesize))
+__CPROVER_ensures(!g_fail ==> g_written == (begin != end ? end - begin + 1 : g_filesize - begin))
+__CPROVER_assigns(g_pos, g_written, g_fail)
+@@wf@@
+void vf_harness(void) { int b, e; writeFile(b, e); VF_CANARY(); }
+''',
+    entry='writeFile',
+    desc='HttpMessage::writeFile for ANY file size and byte range: each read asks for at most what is left of the range (and of the buffer), so never more than end-begin+1 bytes are sent; all of them are sent unless a write fails',
+    functions=['HttpMessage::writeFile'],
+    trusted=['File::read returns 1..k bytes or 0 at the end of the file; HttpMessage::write by its contract (unit HttpMessage_write_blocks)'],
+)
+from units.C09 import parse_query as _pq10
+UNITS += [write_file, _pq10]
+
 # replay: the native counterpart of the loop-turn units is the driver's battery: the real HttpRequest reader fed through a socketpair with six requests on one connection
 # (Content-Length and chunked bodies with binary content, folded headers), delivered whole, cut at request boundaries, cut every 97/333/1000 bytes, cut inside a chunk
 for _u in UNITS:
